@@ -51,9 +51,18 @@ func (r serveRule) step(tc *traceClient, x *core.TSCtx, site ssa.Instruction, q,
 		return q
 	}
 	if ph == "failed" {
-		if ev == "M:E" || ev == "M:Z" { // reporting the failure before closing is permitted
-			return q
+		if ev == "M:E" { // reporting the failure before closing is permitted (ErrorCode: E then Z)
+			return "failedE"
 		}
+		return bad("C12.R1", "after-failure:"+ev, "event "+ev+" after the authentication / session step failed: the connection must end")
+	}
+	if ph == "failedE" {
+		if ev == "M:Z" {
+			return "failedZ"
+		}
+		return bad("C12.R1", "after-failure:"+ev, "event "+ev+" after the authentication / session step failed: the connection must end")
+	}
+	if ph == "failedZ" {
 		return bad("C12.R1", "after-failure:"+ev, "event "+ev+" after the authentication / session step failed: the connection must end")
 	}
 	switch {
@@ -90,7 +99,7 @@ func (r serveRule) step(tc *traceClient, x *core.TSCtx, site ssa.Instruction, q,
 		}
 		return "loop"
 	case ev == "M:E":
-		return "failed"
+		return "failedE"
 	}
 	return bad("C12.R1", ev+"@"+ph, "unexpected event "+ev+" during start-up (phase "+ph+")")
 }
